@@ -21,6 +21,7 @@ def m2_checks(case, kp, p, Xt, observables, rng):
     if 'transform' in observables:
         checks.append(('transform', f'dmat_eqb (ztransform {p}_s {p}_ep {p}_d {p}_X) {sg.render_dmat(Xt, ep)}'))
     if 'dims' in observables:
+        checks.append(('wf', f'wf {p}_s {p}_d'))
         checks.append(('dims', f'(Nat.eqb (fst (sdims {p}_s {p}_d)) {nso} && Nat.eqb (snd (sdims {p}_s {p}_d)) {nuo} '
                                f'&& Nat.eqb (min_samples {p}_s) {kp.min_samples_} '
                                f'&& Nat.eqb (samples_in {p}_s 4) {kp.n_samples_in(4)})%bool'))
@@ -64,7 +65,11 @@ def m2_checks(case, kp, p, Xt, observables, rng):
     if 'names' in observables:
         for fmt in (None, 'latex'):
             for call in (None, True, False):
-                r = kp.get_feature_names_out(format=fmt, episode_feature=call)
+                try:
+                    r = kp.get_feature_names_out(format=fmt, episode_feature=call)
+                except Exception as e:  # a valid fitted estimator must always be able to name its columns
+                    checks.append((f'names/{fmt}/{call}/raised {type(e).__name__}: {e}', 'false'))
+                    continue
                 checks.append((f'names/{fmt}/{call}',
                                f'strs_eqb (znames_out {p}_s {p}_ep {p}_d None {sg.opt_bool(call)} {fnum(fmt == "latex")}) {sg.render_strs(r)}'))
             r = kp.get_feature_names_out(format=fmt, symbols_only=True)
@@ -82,7 +87,7 @@ def m2_predict_checks(case, p, rng, observables):
     coef = rng.integers(-1, 2, size=(nso + nuo, nso)).astype(float)
     kp2 = sg.build_top(case['chain'], regressor=pykoop.DataRegressor(coef=coef))
     try:
-        kp2.fit(case['X'], n_inputs=nu, episode_feature=ep)
+        kp2.fit(case.get('Xfit', case['X']), n_inputs=nu, episode_feature=ep)
     except Exception:  # noqa
         return checks, None
     C = '[' + ';'.join(sg.zrow(r) for r in coef) + ']'
@@ -194,7 +199,7 @@ def run_direct(rng, n, fns, known_filter=None, gen_kw=None, res=None):
         # in the property's domain: skipped and counted
         try:
             kp = direct.build_real_top(case['chain'])
-            kp.fit_transformers(case['X'], n_inputs=case['nu'], episode_feature=case['ep'])
+            kp.fit_transformers(case.get('Xfit', case['X']), n_inputs=case['nu'], episode_feature=case['ep'])
             if direct.min_ep_len(case) >= case['w']:
                 kp.transform(case['X'])
         except Exception:  # noqa
